@@ -283,7 +283,7 @@ fn bomb_ramp(ctx: &mut Ctx, idx: u64, thorough: bool) -> Option<(String, Vec<Req
         let mut n = 256usize;
         let mut name = "";
         while n <= max_n {
-            let (ty, b, nm) = hostile::b7_flat(fam, if fam == 0 || fam == 9 || fam == 14 || fam == 21 { n * 8 } else { n });
+            let (ty, b, nm) = hostile::b7_flat(fam, if fam == 0 || fam == 9 || fam == 14 { n * 8 } else { n });
             name = nm;
             reqs.push(Req::Typed(ty, false, b));
             n *= 2;
@@ -411,7 +411,7 @@ impl Check for C01 {
         }
     }
     fn rule(&self) -> String {
-        format!("hostile inputs decoded in child processes on a {}-byte thread stack under a counting allocator (hard cap 64 MiB + 4000 bytes per input byte), panic hook and per-thread CPU clock: every byte string of length <= 2 (quick) / <= 3 (thorough); byte-mutated test vectors and generated messages; length lies at every head; generated valid / faulted values in wild encodings - each at all 31 byte-level entry points (25 untagged types + 6 tagged) followed, on every accepted value, by clone, ==, to_vec, to_tagged_vec, to_cbor_value, tbs / verify (every signer) / MAC / decrypt helpers under their documented preconditions, canonicalize, label comparison and drop; plus {} bomb ramps on doubling sizes (counter-signature nesting through protected headers in six forms (bare, [sig], [sig, sig], alternating with unprotected headers, long unprotected runs between protected hops) from 12 roots up to depth 2^14 (2^17 thorough), through unprotected headers, nested recipients, CBOR nesting of arrays/maps/tags/indefinite arrays to 10^4, products of these, 21 flat-scale families (incl. maps whose labels arrive in descending / scattered order) up to 1 MB (8 MB thorough), and header maps wrapped in up to 2^14 nested byte strings (bare, under tag 24, in one-element arrays) from 12 roots). Oracle: the child never dies (signal, abort, stack overflow, allocation failure), nothing panics, peak live memory <= {} KiB + {} bytes per input byte, least-squares growth exponents of peak / cumulative bytes / allocator calls <= 1.35 and of thread CPU time <= 1.6 (measured twice), no watchdog expiry (retried alone with a doubled budget). Non-trivial = distinct hostile inputs / ramps.", stack_bytes(), N_BOMB_RAMPS, MEM_B >> 10, MEM_A)
+        format!("hostile inputs decoded in child processes on a {}-byte thread stack under a counting allocator (hard cap 64 MiB + 4000 bytes per input byte), panic hook and per-thread CPU clock: every byte string of length <= 2 (quick) / <= 3 (thorough); byte-mutated test vectors and generated messages; length lies at every head; generated valid / faulted values in wild encodings - each at all 31 byte-level entry points (25 untagged types + 6 tagged) followed, on every accepted value, by clone, ==, to_vec, to_tagged_vec, to_cbor_value, tbs / verify (every signer) / MAC / decrypt helpers under their documented preconditions, canonicalize, label comparison and drop; plus {} bomb ramps on doubling sizes (counter-signature nesting through protected headers in six forms (bare, [sig], [sig, sig], alternating with unprotected headers, long unprotected runs between protected hops) from 12 roots up to depth 2^14 (2^17 thorough), through unprotected headers, nested recipients, CBOR nesting of arrays/maps/tags/indefinite arrays to 10^4, products of these, 27 flat-scale families (incl. maps whose labels arrive in descending / scattered order, and maps whose labels all collide under 31-multiplier string hashes or have equal 32-bit halves) up to 1 MB (8 MB thorough), and header maps wrapped in up to 2^14 nested byte strings (bare, under tag 24, in one-element arrays) from 12 roots). Oracle: the child never dies (signal, abort, stack overflow, allocation failure), nothing panics, peak live memory <= {} KiB + {} bytes per input byte, least-squares growth exponents of peak / cumulative bytes / allocator calls <= 1.35 and of thread CPU time <= 1.6 (measured twice), no watchdog expiry (retried alone with a doubled budget). Non-trivial = distinct hostile inputs / ramps.", stack_bytes(), N_BOMB_RAMPS, MEM_B >> 10, MEM_A)
     }
     fn assumptions(&self) -> Vec<String> {
         vec![
